@@ -1,6 +1,6 @@
 from pyvc.contracts import contract
 from .function_logger import wf_at
-from .common import type_options, type_bads_state, inv_bads, inv_c04, INC, MIN, LOGMAP, DET, NOHE, LOG_GROWS, inv_c02, FEAS, LOGFEAS, HISTFEAS, H_ALIGNED, HU
+from .common import type_options, type_bads_state, inv_bads, inv_c04, INC, MIN, LOGMAP, DET, NOHE, LOG_GROWS, inv_c02, FEAS, LOGFEAS, HISTFEAS, H_ALIGNED, HU, HX, HY, HFC, HIST_PAIRS, HIST_PAIRS_EX, HIST_XMAP, HIST_FC
 
 B = "pybads.bads.bads.BADS"
 
@@ -70,6 +70,7 @@ def _(c):
           top=True, props=["C13"])
     c.ens("options_kept", "NT == old(NT) and B_ == old(B_) and MI == old(MI)")
     c.ens("level_kept", "lvl == old(lvl)")
+    c.ens("log_only_grows", LOG_GROWS, props=["C19", "C04"])
     c.req("sloppy", "truthy(self.options['sloppy_improvement'])", props=["C04", "C19"])
     c.req("u_is_best", "implies(" + DET + ", pteq(pt(self.u), pt(self.u_best)))", props=["C04", "C19"])
     c.ens("u_is_best", "implies(" + DET + ", pteq(pt(self.u), pt(self.u_best)))", props=["C04", "C19"])
@@ -115,6 +116,11 @@ def _(c):
         "c02_log_feasible": LOGFEAS,
         "c02_history_feasible": HISTFEAS,
         "hist_aligned": H_ALIGNED + " and rows(" + HU + ") == poll_iteration + ite(is_finished, 1, 0)",
+        # C19: every recorded iterate is a logged evaluation with the recorded value; x = inverse_transf(u); func_count monotone
+        "c19_recorded_pairs_were_observed": "implies(" + DET + ", " + HIST_PAIRS + ")",
+        "c19_recorded_x_is_image_of_u": HIST_XMAP,
+        "c19_func_count_monotone": HIST_FC,
+        "c19_last_is_current": "implies(is_finished and ((" + DET + ") or poll_iteration == 0), rows(" + HU + ") >= 1 and pteq(pt(self.u), row(" + HU + ", rows(" + HU + ") - 1)) and implies(" + DET + ", self.yval == " + HY + "[rows(" + HY + ") - 1]))",
         "c04_level_kept": "lvl == ghost.lvl0 and truthy(self.options['sloppy_improvement'])",
         "msg_truth": "implies(is_finished, "
                      "(not streq(msg, '')) and streq(self.optim_state['termination_msg'], msg)"
@@ -125,7 +131,7 @@ def _(c):
     }
     c.loop(0, invariants=inv, variant=["MI - 1 - poll_iteration", "B_ - ghost.fc_round", "NT - sc"],
            ghost={"fc_round": "fc", "fc_init": "fc", "NT0": "NT", "MI0": "MI", "B0": "B_", "nfs0": "nfs", "lvl0": "lvl"},
-           modifies_extra=["ghost.fc_round"])
+           modifies_extra=["ghost.fc_round", "ghost.hidx", "ghost.hw"])
     c.hook("self.optim_state['search_count'] = 0", {"ghost.fc_round": "fc"})
     c.loop(1, invariants={
         "tail_count": "fc == ghost.fc_tail0 + i_sample and i_sample >= 0",
@@ -155,6 +161,24 @@ def _(c):
     c.req("c02_log_feasible", LOGFEAS, props=["C02"])
     c.req("fresh_history", "rows(" + HU + ") == 0 and " + H_ALIGNED, props=["C02", "C19", "C05"])
     c.ens("returned_point_feasible", "feasx(pt(self.x))", top=True, props=["C02"])
+    # ---- C19 -----------------------------------------------------------------------------------------------------
+    c.req("fresh_history_c19", "rows(" + HX + ") == 0 and rows(" + HFC + ") == 0", props=["C19"])
+    c.arr("ghost.hidx", 1, [None])
+    c.req("fresh_ghost_index", "rows(ghost.hidx) == 0", props=["C19"])
+    # ghost witness: the log row of the iterate recorded at this iteration (exists by the incumbent invariant)
+    c.choose("self.iteration_history.record('yval', float(self.yval), poll_iteration)", "ghost.hw",
+             "lambda i: 0 <= i and i <= self.function_logger.Xn and pteq(row(self.function_logger.X, i), pt(self.u)) and self.function_logger.Y[i][0] == self.yval",
+             when=DET, props=["C19"])
+    c.hook("self.iteration_history.record('yval', float(self.yval), poll_iteration)", {"ghost.hidx": "upd(ghost.hidx, poll_iteration, ghost.hw)"})
+    c.ens("recorded_pairs_were_observed", "implies(" + DET + ", " + HIST_PAIRS_EX + ")", top=True, props=["C19"])
+    c.ens("recorded_x_is_image_of_u", HIST_XMAP, top=True, props=["C19"])
+    c.ens("func_count_monotone_and_bounded", HIST_FC, top=True, props=["C19"])
+    c.ens("returned_x_is_last_recorded_iterate", "implies(" + DET + ", rows(" + HU + ") >= 1 and pteq(pt(self.x), row(" + HX + ", rows(" + HX + ") - 1)) and "
+          "self.fval == " + HY + "[rows(" + HY + ") - 1])", top=True, props=["C19"])
+    c.ens("returned_x_is_a_recorded_iterate_noisy_selected", "implies(lvl > 0 and poll_iteration > 0, 0 <= min_q_beta_idx and min_q_beta_idx < rows(" + HX + ") and "
+          "pteq(pt(self.x), row(" + HX + ", min_q_beta_idx)))", top=True, props=["C19", "C05"])
+    c.ens("returned_x_is_a_recorded_iterate_otherwise", "implies(not (lvl > 0 and poll_iteration > 0), rows(" + HX + ") >= 1 and pteq(pt(self.x), row(" + HX + ", rows(" + HX + ") - 1)))",
+          top=True, props=["C19"])
     # ---- C04 -----------------------------------------------------------------------------------------------------
     c.req("sloppy", "truthy(self.options['sloppy_improvement'])", props=["C04", "C19"])
     c.req("fresh_log", "self.function_logger.Xn == -1", props=["C04", "C19"])
